@@ -450,7 +450,7 @@ func (w *World) startNow(id int) {
 				o.Err = err
 				return
 			}
-			nameKey, err := type3.UnmarshalEncapKey(is.NameKeyBytes)
+			nameKey, err := type3.UnmarshalEncapKey(w.Arena.Put("namekey", is.NameKeyBytes))
 			if err != nil {
 				o.Err = err
 				return
@@ -643,6 +643,9 @@ func (w *World) handleIssue(m *simnet.Msg, s *Session, o *Outcome, op string) {
 		}
 	})
 	w.Log.Add("evaluate s=%d m=%d err=%v out=%s", s.ID, m.ID, o.Err != nil, core.H(o.Out))
+	if o.Err == nil && o.Out != nil {
+		o.Handed = append(o.Handed, Handed{Name: fmt.Sprintf("type-%d issuer response for message %d", s.Type, m.ID), Bytes: o.Out})
+	}
 	w.emit(o)
 	if o.Err == nil && o.Out != nil {
 		w.send(&simnet.Msg{Sess: s.ID, Kind: KResp, From: m.To, To: "client", Payload: append([]byte(nil), o.Out...), Tag: w.tag(s.ID, KResp)})
@@ -798,6 +801,10 @@ func (w *World) handleIss3(m *simnet.Msg, s *Session, o *Outcome, op string) {
 	})
 	o.OK = o.Err == nil
 	w.Log.Add("evaluate3 s=%d m=%d err=%v out=%s", s.ID, m.ID, o.Err != nil, core.H(o.Out))
+	if o.Err == nil && o.Out != nil {
+		o.Handed = append(o.Handed, Handed{Name: fmt.Sprintf("type-3 issuer response for message %d", m.ID), Bytes: o.Out},
+			Handed{Name: fmt.Sprintf("type-3 blinded request key for message %d", m.ID), Bytes: o.Out2})
+	}
 	w.emit(o)
 	if o.Err == nil && o.Out != nil && !s.Stop {
 		side := append([][]byte{append([]byte(nil), o.Out2...)}, m.Side...)
@@ -821,6 +828,9 @@ func (w *World) handleAttResp(m *simnet.Msg, s *Session, o *Outcome, op string) 
 	w.Log.Add("att-index s=%d m=%d err=%v idx=%s", s.ID, m.ID, o.Err != nil, core.H(o.Out))
 	if o.Err == nil && s.Index == nil {
 		s.Index = o.Out
+	}
+	if o.Err == nil && o.Out != nil {
+		o.Handed = append(o.Handed, Handed{Name: fmt.Sprintf("anonymous issuer origin id for message %d", m.ID), Bytes: o.Out})
 	}
 	w.emit(o)
 	if o.Err == nil {
